@@ -9,6 +9,7 @@ import (
 type commitable[T any] struct {
 	comittedValue T
 	stagedValue   typeutils.Optional[T]
+	previousValue typeutils.Optional[T] // The value replaced by the last Commit, so that it can be rolled back
 }
 
 func NewCommitable[T any](value T) commitable[T] {
@@ -29,9 +30,25 @@ func (c *commitable[T]) Stage(value T) {
 
 func (c *commitable[T]) Commit() {
 	if val, ok := c.stagedValue.Get(); ok {
+		c.previousValue = typeutils.Some(c.comittedValue)
 		c.comittedValue = val
 		c.stagedValue = typeutils.None[T]()
 	}
+}
+
+// Undoes the last Commit.
+func (c *commitable[T]) Rollback() {
+	if val, ok := c.previousValue.Get(); ok {
+		c.comittedValue = val
+		c.previousValue = typeutils.None[T]()
+	}
+}
+
+// Forgets the value replaced by the last Commit. Returns it, if there was one.
+func (c *commitable[T]) Settle() (previous T, ok bool) {
+	previous, ok = c.previousValue.Get()
+	c.previousValue = typeutils.None[T]()
+	return previous, ok
 }
 
 func (c *commitable[T]) Uncommit() {
